@@ -274,6 +274,10 @@ def fancy_src(rng, v):
     if isinstance(v, dict):
         items = ["%s: %s" % (jstr(k), fancy_src(rng, x)) for k, x in v.items()]
         extra = rng.choice([[], ["hid:: 1"], ["hid:: error 'hidden'"], ["local q = 2"]])
+        # hidden fields whose names are visible on the other side of a comparison (same key pool)
+        for nm in ("a", "b", "c", ""):
+            if nm not in v and rng.random() < 0.25:
+                extra = extra + ["%s:: %s" % (jstr(nm), rng.choice(["1", "2", "'a'", "[]", "error 'hidden'"]))]
         src = "{" + ", ".join(items + extra) + "}"
         if rng.random() < 0.3 and v:
             k0 = next(iter(v))
